@@ -85,6 +85,8 @@ pub fn make(wl: &str, rng: &mut Rng, cfg: &CheckCfg, k: u64) -> Option<Scenario>
             Some(Scenario { kind: "loop".into(), prog, args: vec![n], meta: vec![] })
         }
         "loop2" => Some(make_loop2(rng, &cfg.backends)),
+        "ops" => Some(make_ops(rng, &cfg.backends, false)),
+        "ops-rv" => Some(make_ops(rng, &cfg.backends, true)),
         "pipe" | "pipe-rv" => make_pipe(rng, wl == "pipe-rv", cfg.max_stmts),
         "abi" => Some(make_abi(rng, &cfg.backends)),
         "subst" => Some(make_subst(rng, &cfg.backends)),
@@ -450,10 +452,13 @@ pub fn make_abi(rng: &mut Rng, backends: &[Backend]) -> Scenario {
 // W-subst (C11): old environment of n variables; ONE substitution; observe every new variable
 
 pub fn make_subst(rng: &mut Rng, backends: &[Backend]) -> Scenario {
-    let rv = backends.contains(&Backend::Rv);
-    let mut kit = Kit { next: 3000, printless: rv && rng.pct(45), obs_budget: 48 };
+    // about 40 % of the scenarios stay within the RISC-V register file (and half of those are
+    // print-free so that the RISC-V backend can run them); the others slide the window across the
+    // x86-64 (6) and AArch64 (13) register/spill boundaries
+    let rv = backends.contains(&Backend::Rv) && rng.pct(40);
+    let mut kit = Kit { next: 3000, printless: rv && rng.pct(60), obs_budget: 48 };
     let cap = if rv { 13 } else { 40 };
-    let offset = if rng.pct(70) { rng.below(15) } else { 0 };
+    let offset = if rng.pct(75) { [0, 1, 2, 3, 4, 5, 6, 7, 9, 10, 11, 12, 13, 14, 15, 17][rng.below(16)] } else { 0 };
     let (n, m) = if rng.pct(70) { (rng.below(6), rng.below(6)) } else { (rng.below(9), rng.below(12)) };
     let offset = offset.min(cap - n.max(m).min(cap));
     let mut ctx: Vec<Bind> = Vec::new();
@@ -884,4 +889,100 @@ pub fn make_pipe(rng: &mut Rng, print_free: bool, size: usize) -> Option<Scenari
     .ok()??;
     let prog: Prog = serde_json::from_str(&json).ok()?;
     Some(Scenario { kind: "pipe".into(), prog, args: fp.args, meta: vec![] })
+}
+
+// ---------------------------------------------------------------------------------------------
+// W-ops (C06/C07/C08): all five operators and all six comparisons (zero and two-operand form)
+// with operands and targets in every register/spill placement
+
+pub fn make_ops(rng: &mut Rng, backends: &[Backend], print_free: bool) -> Scenario {
+    let mut kit = Kit { next: 7000, printless: false, obs_budget: 0 };
+    let rv = backends.contains(&Backend::Rv);
+    let cap = if rv { 13 } else { 30 };
+    let k = rng.below(min_args(backends).min(3) + 1);
+    let params: Vec<Bind> = (0..k).map(|_| ext(kit.fresh("arg"))).collect();
+    let mut ctx = params.clone();
+    let mut pre: Vec<Stmt0> = Vec::new();
+    // operands: small and boundary values, never zero so that they can serve as divisors
+    let p = [1, 2, 4, 5, 6, 7, 11, 12, 13, 14, 15, 16, 18, 22][rng.below(14)].min(cap - 4);
+    while ctx.len() < p {
+        let v = kit.fresh("i");
+        let mut lit = match rng.below(6) {
+            0 => *rng.pick(&LIT_POOL),
+            1 => halfword_pattern(rng),
+            _ => rng.range(-60, 300),
+        };
+        if lit == 0 {
+            lit = 3;
+        }
+        pre.push(Stmt0::Lit(lit, v.clone()));
+        ctx.push(ext(v));
+    }
+    let nops = 1 + rng.below(6);
+    let mut results: Vec<Name> = Vec::new();
+    for _ in 0..nops {
+        if ctx.len() + 2 > cap || ctx.is_empty() {
+            break;
+        }
+        let pick = |rng: &mut Rng, ctx: &Vec<Bind>| -> Name {
+            // bias towards the first positions (rax/rdx, X4/X5) and the last ones (spills)
+            let n = ctx.len();
+            let i = match rng.below(4) {
+                0 => rng.below(n.min(2)),
+                1 => n - 1 - rng.below(n.min(3)),
+                _ => rng.below(n),
+            };
+            ctx[i].v.clone()
+        };
+        let fst = pick(rng, &ctx);
+        let snd = pick(rng, &ctx);
+        let op = *rng.pick(&[BinOp::Sum, BinOp::Sub, BinOp::Prod, BinOp::Div, BinOp::Rem, BinOp::Rem, BinOp::Div]);
+        let r = kit.fresh("r");
+        pre.push(Stmt0::Op(fst, op, snd, r.clone()));
+        ctx.push(ext(r.clone()));
+        results.push(r);
+    }
+    // comparisons: print 1 or 2 depending on the branch, then continue in both branches
+    let ncmp = rng.below(3);
+    let mut body: Rc<Stmt> = {
+        let mut fin: Vec<Pre> = Vec::new();
+        if !print_free {
+            for r in &results {
+                fin.push(Pre::Print { newline: true, var: r.clone() });
+            }
+        }
+        let z = kit.fresh("z");
+        fin.push(Pre::Lit { lit: 0, var: z.clone() });
+        fold(fin, Stmt::Exit { var: results.last().cloned().unwrap_or(z) })
+    };
+    for _ in 0..ncmp {
+        if ctx.is_empty() {
+            break;
+        }
+        let n = ctx.len();
+        let a = ctx[rng.below(n)].v.clone();
+        let b = if rng.pct(60) { Some(ctx[n - 1 - rng.below(n.min(4))].v.clone()) } else { None };
+        let sort = *rng.pick(&[IfSort::Eq, IfSort::Ne, IfSort::Lt, IfSort::Le, IfSort::Gt, IfSort::Ge]);
+        let t = if print_free {
+            // observable through the result instead of a print
+            Rc::new(Stmt::Exit { var: a.clone() })
+        } else {
+            Rc::new(Stmt::Print { newline: false, var: a.clone(), next: body.clone() })
+        };
+        body = Rc::new(Stmt::If { sort, fst: a, snd: b, thenc: t, elsec: body });
+    }
+    for s0 in pre.into_iter().rev() {
+        body = Rc::new(match s0 {
+            Stmt0::Lit(lit, var) => Stmt::Lit { lit, var, next: body },
+            Stmt0::Op(fst, op, snd, var) => Stmt::Op { fst, op, snd, var, next: body },
+        });
+    }
+    let prog = Prog { types: kit_types(), defs: vec![Def { name: Name::new("main", 0), params, body }], max_id: kit.next + 1 };
+    let args = (0..k).map(|_| { let v = rng.range(-40, 90); if v == 0 { 9 } else { v } }).collect();
+    Scenario { kind: "ops".into(), prog, args, meta: vec![] }
+}
+
+enum Stmt0 {
+    Lit(i64, Name),
+    Op(Name, BinOp, Name, Name),
 }
